@@ -1,7 +1,8 @@
 (* C13: the obligation over the translator table coq/Gen/C13Reuse.v (regenerated from
    /repo/pkg/action/upgrade.go on every check run by harness/cmd/hx/gentables_c13.go).
 
-   [reuse_rows_ok]: on each of the 8 x 3 x 3 environments (the three flags; the new values nil /
+   [reuse_rows_understood]: the translator met nothing it could not interpret.
+   [reuse_rows_no_diffs] / [reuse_rows_ok]: on each of the 8 x 3 x 3 environments (the three flags; the new values nil /
    empty / non-empty; the deployed revision's values nil / empty / non-empty) exactly one path of
    reuseValues is taken, every condition on it could be interpreted, and the path returns what the
    model decides there ([ReuseMode.model_decision]: which map, overlaid onto a COPY of the
@@ -13,8 +14,20 @@ From Helm Require Import Values.Tree Values.Coalesce Values.Reuse Values.ReusePr
 From Helm Require Gen.C13Reuse.
 Import ListNotations.
 
-Lemma reuse_rows_ok : table_ok Gen.C13Reuse.reuse_rows = true.
+(* 1. the translator understood every construct it met on the paths of reuseValues (and of the
+      same-package helpers it inlined).  When this fails the message lists, with line and source
+      text, what it could not interpret. *)
+Lemma reuse_rows_understood : Gen.C13Reuse.reuse_rows_unknown = [].
+Proof. vm_compute. (* so that a failure prints the list *) reflexivity. Qed.
+
+(* 2. no environment on which the table decides otherwise than the model.  When this fails the
+      message lists the environments (reset, reuse, reset-then-reuse, new values, deployed values)
+      with the table's decision and the model's. *)
+Lemma reuse_rows_no_diffs : table_diffs Gen.C13Reuse.reuse_rows = [].
 Proof. vm_compute. reflexivity. Qed.
+
+Lemma reuse_rows_ok : table_ok Gen.C13Reuse.reuse_rows = true.
+Proof. exact (table_diffs_ok _ reuse_rows_no_diffs). Qed.
 
 Theorem reuse_rows_decide : forall e : renv, decide e Gen.C13Reuse.reuse_rows = Some (model_decision e).
 Proof. exact (table_ok_decide _ reuse_rows_ok). Qed.
